@@ -46,7 +46,7 @@ def window(rng, text, maxlen):
 def mutate(rng, base, others):
     """one mutant of `base` (str); returns (kind, bytes)"""
     kind = rng.choice(["byte", "byte", "tok-ins", "tok-ins", "tok-del", "splice", "uni", "uni", "uni-end", "uni-end",
-                       "delim", "delim", "trunc", "trunc-open", "multi"])
+                       "delim", "delim", "trunc", "trunc-open", "multi", "op-glue", "op-glue"])
     t = base
     n = len(t)
     if kind == "byte":
@@ -92,6 +92,23 @@ def mutate(rng, base, others):
                 p = rng.choice(pos); t = t[:p] + t[p + 1:]
             else:
                 p = rng.choice(pos); t = t[:p] + rng.choice(DELIMS) + t[p + 1:]
+    elif kind == "op-glue":
+        # an operator (prefix) glued to a comment / literal / multi-byte char: before a closing delimiter,
+        # at the end of the text, after `#`, or between two tokens
+        for _ in range(rng.choice([1, 1, 2])):
+            g = rng.choice(OP_PREFIXES) + rng.choice(GLUE)
+            where = rng.choice(["close", "close", "eof", "attr", "between"])
+            pos = [i for i, ch in enumerate(t) if ch in ")}]"]
+            if where == "close" and pos:
+                p = rng.choice(pos); t = t[:p] + rng.choice(["", " ", "a "]) + g + t[p:]
+            elif where == "eof":
+                t = t + rng.choice(["", " ", "\n"]) + g
+            elif where == "attr":
+                p = rng.randrange(len(t) + 1); t = t[:p] + "#" + rng.choice(GLUE) + "[test]" + t[p:]
+            else:
+                import re
+                ms = [m.end() for m in re.finditer(r"\w+|[^\w\s]", t)] or [len(t)]
+                p = rng.choice(ms); t = t[:p] + " " + g + t[p:]
     elif kind == "trunc":
         t = t[:rng.randrange(n + 1)]
     elif kind == "trunc-open":
@@ -105,10 +122,50 @@ def mutate(rng, base, others):
     return kind, t.encode()
 
 
+# ---- Joint punctuation left as the LAST token of a stream: the lexer decides Joint/Alone from the next
+# character before comments are stripped, so an operator (prefix) glued to a comment, placed before a
+# closing delimiter / EOF, reaches the parser as a Joint punct with nothing after it.
+PUNCTS = list(";:/,*+-<>=.!%&^|_#")
+OPS = ["::", "==", "!=", "<=", ">=", "&&", "||", "->", "=>", "<-", "+=", "-=", "*=", "/=", "%=", "&=", "|=", "^=", "<<", ">>",
+       "<<=", ">>=", "..", "..=", "**", "#!", "#["]
+OP_PREFIXES = sorted(set(PUNCTS + [o[:k] for o in OPS for k in range(1, len(o))] + OPS))
+GLUE = ["// c\n", "//\n", "// c", "/* c */", "/**/", "/* a\n b */", "/// d\n", "//! d\n", "\"s\"", "'c'", "é", "😀", "\u2028", "\u00a0"]
+
+
+def glued(op, glue, ctx):
+    """one input of the class: `op` directly followed by `glue`, in context number ctx"""
+    g = op + glue
+    # every context starts with a module kind: without one the parser stops at its first token
+    return ["script; fn main() { a %s}" % g, "script; fn main() { foo(a %s) }" % g, "library; fn f() { let x = [a %s]; }" % g,
+            "library; fn f() {} %s" % g, "script; %s" % g, "library; %s[test] fn f() {}" % g, "library; #%s[test] fn f() {}" % glue,
+            "script; fn main() { let x = a %s b; }" % g, "library; fn f() { let x = a %s\n}" % g, "contract; struct S { x: u64 %s}" % g,
+            "library; impl A { fn f(self) %s}" % g, "%s" % g][ctx % 12]
+
+
+def glue_corpus():
+    """deterministic always-on cases: every operator prefix x line/block comment x every context,
+    plus literals and multi-byte characters as glue in the closing-delimiter contexts"""
+    out = []
+    for op in OP_PREFIXES:
+        for ctx in range(12):
+            out.append(glued(op, GLUE[(ctx + len(op)) % 2 * 3], ctx))       # `// c\n` or `/* c */`
+        for gl in GLUE[2:]:
+            out.append(glued(op, gl, 0)); out.append(glued(op, gl, 3))
+    return [t.encode() for t in out]
+
+
 def soup(rng):
     k = rng.choice([1, 2, 3, 5, 8, 13, 30, 80])
     sep = rng.choice(["", "", " ", " ", "\n"])
-    return sep.join(rng.choice(VOCAB) for _ in range(k)).encode()
+    toks = [rng.choice(VOCAB) for _ in range(k)]
+    if rng.random() < 0.4:
+        # bias: operator prefixes glued to comments / literals, also as the last token and before a closer
+        for _ in range(rng.choice([1, 1, 2, 3])):
+            toks.insert(rng.randrange(len(toks) + 1), rng.choice(OP_PREFIXES) + rng.choice(GLUE) + rng.choice(["", "", ")", "}", "]"]))
+        if rng.random() < 0.5:
+            toks.append(rng.choice(OP_PREFIXES) + rng.choice(GLUE[:5]))
+    kind = rng.choice(["", "script; ", "library; ", "script; fn main() { ", "library; fn f() { let x = "])
+    return (kind + sep.join(toks)).encode()
 
 
 def key_of(b):
@@ -189,6 +246,8 @@ def run(ctx):
         ln = ln.split("#")[0].strip()
         if ln:
             cases.append(("corpus", b"" if ln == "-" else bytes.fromhex(ln)))
+    for b in glue_corpus():
+        cases.append(("corpus:op-glue", b))
     ncorpus = len(cases)
     for f, b in texts:
         cases.append(("file:" + os.path.relpath(f, REPO), sanitize(b)))
@@ -203,6 +262,9 @@ def run(ctx):
         base = window(rng, rng.choice(small), rng.choice([60, 200, wmax]))
         others = [window(rng, rng.choice(small), 300)]
         k, b = mutate(rng, base, others)
+        if rng.random() < 0.6 and not b.lstrip()[:9].split(b";")[0] in (b"script", b"library", b"contract", b"predicate"):
+            # a window cut out of a file has no module kind and the parser would stop at its first token
+            b = rng.choice([b"script;\n", b"library;\n", b"contract;\n"]) + rng.choice([b"", b"fn f() {\n", b"impl A {\n"]) + b
         kinds[k] = kinds.get(k, 0) + 1
         cases.append(("mut:" + k, sanitize(b)))
     for _ in range(nsoup):
@@ -296,7 +358,7 @@ def run(ctx):
                          "Unicode tables (char::is_whitespace, unicode-xid) are parameters of the model: theorems hold for every table; per case the judge uses the class bits the real functions report",
                          "the parser is NOT modelled: parse_file is only run (no panic); its diagnostics' spans are checked by the proved in-bounds oracle and by the proved `derived` decision (each is join/start/end of token spans, lexer diagnostics or Parser::emit_error end-of-stream spans of that input)"],
         "evaluations": len(cases), "distinct_nontrivial": distinct,
-        "rule": "distinct by byte content; non-trivial = at least 8 bytes. Inputs: regression corpus, every .sw file under /repo, mutants of random windows of those files (byte/token insertion+deletion, splicing, unicode insertion incl. multi-byte chars at the end of unclosed comments/strings/chars/escapes, unbalanced delimiters, truncation) and token soups",
+        "rule": "distinct by byte content; non-trivial = at least 8 bytes. Inputs: regression corpus, every .sw file under /repo, mutants of random windows of those files (byte/token insertion+deletion, splicing, unicode insertion incl. multi-byte chars at the end of unclosed comments/strings/chars/escapes, unbalanced delimiters, truncation, operator prefixes glued to comments/literals/multi-byte chars before closers, EOF, after `#` and between tokens) and token soups; the regression corpus includes every punctuation char and operator prefix glued to a line/block comment in 12 contexts",
         "samples": [{"origin": o, "input": b.decode("utf-8", "replace")[:120], "lex": LEXC[c[0]], "parse": PARC[c[1]]}
                     for (o, b), c in list(zip(cases, codes))[ncorpus + nfiles:ncorpus + nfiles + 4]],
         "inputs": {"corpus": ncorpus, "repo_sw_files": nfiles, "mutants": nmut, "soups": nsoup, "mutation_kinds": kinds,
